@@ -139,6 +139,11 @@ theorem multicvrp_local_times_roundF32_counterexample :
 theorem multicvrp_step_bInv_roundF32_false :
     ¬ ∀ (c : Cfg) (L : Lim) (D : Dist) (s : State) (a : List Nat), DistOK L D → BInv c L s →
         BInv c L (step Jx.roundF32 c D s a).1 := MultiCVRP.step_bInv_roundF32_false
+/-! NOTE on what the membership theorems of this section do and do not cover (audits r4 #6, r5 #6, r6 #8): the dtype tag of every leaf
+is written by `toNValue` (by construction) — a wrong dtype in the real code cannot falsify `….valid (toNValue …) = true`; dtypes and
+field order of the real observations are compared by the `multi_cvrp.spec` / `multi_cvrp.state` ops (`nvalue`: field order, shape, dtype, data) and
+`jax.eval_shape` in the sweeps.  Shapes are READ OFF the value by `toNValue` (widths off the first row): see `…_obs_valid_only`. -/
+
 /-! #### (wave 4) membership in the DECLARED specs: structure, shapes, dtypes and bounds -/
 open Sp PzS PkS
 
@@ -147,19 +152,39 @@ num_vehicles=2)`: the paper's scenario) and `dmax = 7241/512 ≥ 10·√2`, a bo
 def lim6x2 : Lim :=
   { mapMax := 10, demandMax := 10, maxStart := 10, windowLen := 20, coefEarlyMax := 1 / 5, coefLateMax := 1, dmax := 7241 / 512 }
 
+/-- the generator's ranges of the spec-only configurations `UniformRandomGenerator(num_customers=20, num_vehicles=3)` and
+`UniformRandomGenerator(num_customers=100, num_vehicles=3)` (the paper's scenarios, `get_init_settings`) -/
+def lim20x3 : Lim :=
+  { mapMax := 10, demandMax := 15, maxStart := 10, windowLen := 20, coefEarlyMax := 1 / 5, coefLateMax := 1, dmax := 7241 / 512 }
+def lim100x3 : Lim :=
+  { mapMax := 20, demandMax := 15, maxStart := 40, windowLen := 20, coefEarlyMax := 1 / 5, coefLateMax := 1, dmax := 7241 / 256 }
+
 /-- the model's `obsSpec` / `actionSpec` / reward and discount specs ARE the specs generated from the real spec objects
 (Gen/Specs.lean) for the catalogue configuration `multicvrp-6x2`: paths `nodes.{coordinates,demands}`, `windows.{start,end}`,
 `coeffs.{early,late}`, `vehicles.{coordinates,local_times,capacities}`, `action_mask` in this order; shapes `(N+1, 2)`,
 `(N+1,)` ×5, `(V, 2)`, `(V,)` ×2, `(V, N+1)`; dtypes float32 / int16 / bool; maxima `map_max`, `max_capacity`,
 `max_end_window` (both window leaves), `late_coef_rand[-1]` (both coefficient leaves), `max_local_time` =
 float32(2·map_max·√2·N) = 2780457/16384, `max_capacity`; the action spec with maximum `num_customers + 1`.  (All leaves are in
-the generated table; every adapter configuration is compared at run time by the `multi_cvrp.spec` op.) -/
+the generated table; every adapter configuration is compared at run time by the `multi_cvrp.spec` op.)
+SPEC-ONLY configurations: `multicvrp-20x3` (20 customers, 3 vehicles, `max_capacity` 60, `max_local_time` = 4634095/8192) and
+`multicvrp-100x3` (100 customers, 3 vehicles: `map_max` 20, `max_capacity` 300, `max_start_window` 40, so that the window maximum 60,
+the map maximum 20 and the capacity differ — in the 6- and 20-customer scenarios `map_max = max_start_window = 10`;
+`max_local_time` = float32(2·20·√2·100) = 5792619/1024) -/
 theorem multicvrp_obsSpec_generated :
     prefixed "observation_spec." (obsSpec ⟨6, 20, true⟩ 2 lim6x2 (2780457 / 16384)) = declared "multicvrp-6x2" "observation_spec." ∧
     [("action_spec", actionSpec ⟨6, 20, true⟩ 2)] = declared "multicvrp-6x2" "action_spec" ∧
     [("reward_spec", rewardSpec)] = declared "multicvrp-6x2" "reward_spec" ∧
-    [("discount_spec", discountSpec)] = declared "multicvrp-6x2" "discount_spec" := by
-  refine ⟨by decide +kernel, by decide +kernel, by decide, by decide⟩
+    [("discount_spec", discountSpec)] = declared "multicvrp-6x2" "discount_spec" ∧
+    prefixed "observation_spec." (obsSpec ⟨20, 60, true⟩ 3 lim20x3 (4634095 / 8192)) = declared "spec-only-multicvrp-20x3" "observation_spec." ∧
+    [("action_spec", actionSpec ⟨20, 60, true⟩ 3)] = declared "spec-only-multicvrp-20x3" "action_spec" ∧
+    [("reward_spec", rewardSpec)] = declared "spec-only-multicvrp-20x3" "reward_spec" ∧
+    [("discount_spec", discountSpec)] = declared "spec-only-multicvrp-20x3" "discount_spec" ∧
+    prefixed "observation_spec." (obsSpec ⟨100, 300, true⟩ 3 lim100x3 (5792619 / 1024)) = declared "spec-only-multicvrp-100x3" "observation_spec." ∧
+    [("action_spec", actionSpec ⟨100, 300, true⟩ 3)] = declared "spec-only-multicvrp-100x3" "action_spec" ∧
+    [("reward_spec", rewardSpec)] = declared "spec-only-multicvrp-100x3" "reward_spec" ∧
+    [("discount_spec", discountSpec)] = declared "spec-only-multicvrp-100x3" "discount_spec" := by
+  refine ⟨by decide +kernel, by decide +kernel, by decide +kernel, by decide +kernel, by decide +kernel, by decide +kernel,
+    by decide +kernel, by decide +kernel, by decide +kernel, by decide +kernel, by decide +kernel, by decide +kernel⟩
 
 /-- the invariant behind the membership theorems — `BInv c L` (problem data in the generator's ranges, capacities in
 `[0, max_capacity]`, local times at most `(step_count − 1)·dmax`) and the array shapes `ShapeInv` — is established by `reset`
@@ -234,7 +259,10 @@ theorem multicvrp_rollout_obs_valid (rnd : Rat → Rat) (c : Cfg) (nV : Nat) (hV
   MultiCVRP.rollout_obs_valid rnd c nV hV L maxLocal hdecl D hr hD d hd as has j hj e he
 
 /-- what membership means (so the theorems above are not hollow): `validate` accepts an observation ONLY IF the arrays have
-the declared shapes and every value lies in its declared range -/
+the declared shapes and every value lies in its declared range  CAVEAT (audits r4 #7, r5 #5, r6 #5): for every field that is a nested list, `toNValue` reads the widths off the FIRST row of the
+nested list, so the shape conjuncts here mean "row count, length of the first row, total number of cells" — a ragged value with the right total can be a
+member, and nothing is concluded about the later rows.  Rectangularity is part of the invariant (`SpecInv` / `Shaped` / `Rect…`) under which the
+forward theorems (`…_reset_obs_valid`, `…_step_obs_valid`, `…_along`) are proved, i.e. it holds of every EMITTED observation. -/
 theorem multicvrp_obs_valid_only (c : Cfg) (nV : Nat) (L : Lim) (maxLocal : Rat) (o : Obs)
     (h : (obsSpec c nV L maxLocal).valid (toNValue o) = true) :
     shape2 o.coords = [c.numCustomers + 1, 2] ∧ (∀ x ∈ o.coords.flatten, 0 ≤ x ∧ x ≤ L.mapMax) ∧
